@@ -21,8 +21,11 @@ def one(prog):
         r = replay.replay_graph(prog, max_paths=100000)
     except Exception as ex:  # noqa: BLE001
         return prog['name'], None, 'error: %r' % (ex,)
-    if r['divergence'] or r['model_invariants_violated']:
+    if r['divergence']:
         return prog['name'], r['transitions'], 'drift: %s %s' % (json.dumps(r['divergence'])[:300], r['model_invariants_violated'])
+    if r['model_invariants_violated']:
+        # the code follows the model; the MODEL breaks a property (the known findings D8 / D9): kept, the checks report it
+        print('  %-40s model invariants violated: %s' % (prog['name'], r['model_invariants_violated']))
     return prog['name'], r['transitions'], None
 
 
@@ -32,7 +35,10 @@ def main(argv):
     path = os.path.join(ROOT, 'spec', 'instance_sizes.json')
     with open(path) as f:
         sizes = json.load(f)
-    progs = [p for p in corpus.all_programs() if not any(r.get('recseq') for r in p['runs'])]
+    # (counter-driven plans and switches whose id the builder invents have no fixed model instance)
+    progs = [p for p in corpus.all_programs() if not any(r.get('recseq') for r in p['runs'])
+             and not any(prm.get('unnamed') for n in p['nodes'] for prm in n['params'])
+             and not programs.mixed_failures(p)]
     names = {p['name'] for p in progs}
     todo = progs if '--all' in argv else [p for p in progs if p['name'] not in sizes]
     stale = sorted(set(sizes) - names)
